@@ -149,8 +149,7 @@ class Ctx:
     def tlc_expect_violation(self, family, module, cfg, what, workers=4, timeout=600, args=()):
         """Anti-vacuity: a deliberately broken / as-is design config must be refuted by TLC."""
         r = self.tlc_raw(family, module, cfg, workers=workers, timeout=timeout, args=args)
-        bad = ("is violated" in r["out"]) or ("Temporal properties were violated" in r["out"]) \
-            or ("Deadlock reached" in r["out"])
+        bad = bool(re.search(r"(is|was|were) violated", r["out"])) or ("Deadlock reached" in r["out"])
         if not bad:
             sys.stdout.write(r["out"][-3000:])
             raise Infra("anti-vacuity config %s/%s (%s) was expected to be refuted (%s)" % (
@@ -227,6 +226,9 @@ class Ctx:
         except subprocess.TimeoutExpired:
             raise Infra("driver timeout: %s" % " ".join(map(str, args)))
         if p.returncode != 0 and not allow_fail:
+            os.makedirs(os.path.join(VERIF, "replays"), exist_ok=True)
+            with open(os.path.join(VERIF, "replays", "%s-driver-failure.txt" % self.prop), "w") as f:
+                f.write(p.stdout[-200000:])
             sys.stdout.write(p.stdout[-6000:])
             raise Infra("driver failed rc=%d: %s" % (p.returncode, " ".join(map(str, args))))
         log("  [drv] %s (%.1fs)%s" % (" ".join(map(str, args))[:160], time.time() - t,
